@@ -118,7 +118,7 @@ func (b *Batch) BuildAll() error {
 	os.Remove(filepath.Join(b.Dir, "sched.go"))
 	cmd := exec.Command("go", "build", "-gcflags=-e", "./...")
 	cmd.Dir = b.Dir
-	cmd.Env = append(os.Environ(), "GOFLAGS=-mod=mod", "GOMAXPROCS=4")
+	cmd.Env = b.buildEnv("GOMAXPROCS=4")
 	out, err := cmd.CombinedOutput()
 	if err == nil {
 		return nil
@@ -146,6 +146,39 @@ func (b *Batch) Item(pkg string) *Item { return b.byPkg[pkg] }
 
 var buildErrRe = regexp.MustCompile(`(?m)^(?:\./)?([A-Za-z0-9_]+)/parser\.go:(\d+):(\d+): (.*)$`)
 
+var buildCacheDir string
+
+// buildEnv returns the environment for `go build` of generated parsers.
+// Every generated package is unique, so caching it in the user's Go build
+// cache would grow that cache without bound (it reached 136 GB in one
+// afternoon). The builds use a scratch cache inside the run's scratch
+// directory instead, seeded with hard links to a small cache that holds the
+// standard library (built by setup.sh); it disappears with the scratch directory.
+func (b *Batch) buildEnv(extra ...string) []string {
+	if buildCacheDir == "" {
+		scratch := filepath.Dir(b.Dir)
+		dir := filepath.Join(scratch, fmt.Sprintf("gocache-%d", os.Getpid()))
+		seed := os.Getenv("VERIF_SEEDCACHE")
+		ok := false
+		if seed != "" {
+			if _, err := os.Stat(seed); err == nil {
+				if exec.Command("cp", "-al", seed, dir).Run() == nil {
+					ok = true
+				} else {
+					os.RemoveAll(dir)
+					ok = exec.Command("cp", "-r", seed, dir).Run() == nil
+				}
+			}
+		}
+		if !ok {
+			os.MkdirAll(dir, 0o755)
+		}
+		buildCacheDir = dir
+	}
+	env := append(os.Environ(), "GOFLAGS=-mod=mod", "GOCACHE="+buildCacheDir)
+	return append(env, extra...)
+}
+
 // BuildGo links every generated Go parser into one driver binary. Packages
 // the compiler rejects are recorded (Item.BuildErr), removed, and the build
 // is repeated without them.
@@ -167,7 +200,7 @@ func (b *Batch) BuildGo() error {
 		}
 		cmd := exec.Command("go", "build", "-gcflags=-e", "-o", "drv", ".")
 		cmd.Dir = b.Dir
-		cmd.Env = append(os.Environ(), "GOFLAGS=-mod=mod", "GOMAXPROCS=4")
+		cmd.Env = b.buildEnv("GOMAXPROCS=4")
 		out, err := cmd.CombinedOutput()
 		if err == nil {
 			b.built = true
@@ -260,7 +293,7 @@ type SchedOut struct {
 func (b *Batch) BuildRace() error {
 	cmd := exec.Command("go", "build", "-race", "-o", "drv-race", ".")
 	cmd.Dir = b.Dir
-	cmd.Env = append(os.Environ(), "GOFLAGS=-mod=mod", "CGO_ENABLED=1")
+	cmd.Env = b.buildEnv("CGO_ENABLED=1")
 	out, err := cmd.CombinedOutput()
 	if err != nil {
 		return fmt.Errorf("go build -race of the driver failed:\n%s", tail(string(out), 2000))
